@@ -217,9 +217,9 @@ def insertText (x : List Nat) : List (List Nat) → List (List Nat)
 def sortTexts (xs : List (List Nat)) : List (List Nat) := xs.foldr insertText []
 
 mutual
-/-- `generate_schema_validator` / `generate_named_schema_base`; `tvs` = vids of TypeValidators
+/-- `generate_schema_validator` / `generate_named_schema_base`; `tvs` = vids of TypeValidators, `nrs` = vids of `Lazy(…, recurrent=False)`;
     (unsupported), structural recursion on the validator: a `Lazy` is never followed -/
-def toSchema (pr : Printer) (ctx : RefCtx) (tvs : List Nat) : V → Except Exn J
+def toSchema (pr : Printer) (ctx : RefCtx) (tvs nrs : List Nat) : V → Except Exn J
   | .scalar vid tg _ _ ps aps =>
     if tvs.contains vid then .error .typeError
     else do
@@ -234,26 +234,26 @@ def toSchema (pr : Printer) (ctx : RefCtx) (tvs : List Nat) : V → Except Exn J
   | .always _ => .error .typeError
   | .isDict _ => .ok (.obj [(kw "type", .str (kw "object"))])
   | .list _ item ps aps _ => do
-    let it ← toSchema pr ctx tvs item
+    let it ← toSchema pr ctx tvs nrs item
     let o ← predsSchema pr [(kw "type", .str (kw "array")), (kw "items", it)] (ps ++ aps)
     .ok (.obj o)
   | .utuple _ item ps aps _ => do
-    let it ← toSchema pr ctx tvs item
+    let it ← toSchema pr ctx tvs nrs item
     let o ← predsSchema pr [(kw "type", .str (kw "array")), (kw "items", it)] (ps ++ aps)
     .ok (.obj o)
   | .set _ _ _ _ _ => .error .typeError
   | .ntuple _ fs _ _ _ => do
-    let items ← toSchemaL pr ctx tvs fs
+    let items ← toSchemaL pr ctx tvs nrs fs
     .ok (.obj ([(kw "description", .str (kw "a " ++ natText fs.length ++ kw "-tuple of the fields in \"prefixItems\"")),
       (kw "type", .str (kw "array")), (kw "additionalItems", .bool false),
       (kw "maxItems", .int fs.length), (kw "minItems", .int fs.length)] ++
       (if items.isEmpty then [] else [(kw "prefixItems", .arr items)])))
   | .map _ _ value ps aps _ => do
-    let vs ← toSchema pr ctx tvs value
+    let vs ← toSchema pr ctx tvs nrs value
     let o ← predsSchema pr [(kw "type", .str (kw "object")), (kw "additionalProperties", vs)] (ps ++ aps)
     .ok (.obj o)
   | .record _ cfg vs => do
-    let props ← toSchemaL pr ctx tvs vs
+    let props ← toSchemaL pr ctx tvs nrs vs
     match labelsText pr cfg.keys with
     | none => .error .other
     | some labels =>
@@ -263,26 +263,28 @@ def toSchema (pr : Printer) (ctx : RefCtx) (tvs : List Nat) : V → Except Exn J
         (kw "required", .arr (req.map J.str)),
         (kw "properties", .obj ((labels.zip props).foldl (fun acc p => jset acc p.1 p.2) []))])
   | .union _ vs => do
-    let items ← toSchemaL pr ctx tvs vs
+    let items ← toSchemaL pr ctx tvs nrs vs
     .ok (.obj [(kw "oneOf", .arr items)])
   | .optional _ _ inner => do
-    let s ← toSchema pr ctx tvs inner
+    let s ← toSchema pr ctx tvs nrs inner
     match s with
     | .obj o => .ok (.obj (jset o (kw "nullable") (.bool true)))
     | _ => .error .assertion
   | .maybe _ _ => .error .typeError
-  | .lazy _ _ =>
+  | .lazy vid _ =>
     match ctx with
     | none => .error .typeError
-    | some ref => .ok (.obj [(kw "$ref", .str ref)])
-  | .knr _ inner => toSchema pr ctx tvs inner
+    | some ref =>
+      -- `Lazy(..., recurrent=False)`: "cannot proceed from here since the validator is a thunk"
+      if nrs.contains vid then .ok (.obj []) else .ok (.obj [(kw "$ref", .str ref)])
+  | .knr _ inner => toSchema pr ctx tvs nrs inner
   | .user _ _ => .error .typeError
 termination_by structural v => v
-def toSchemaL (pr : Printer) (ctx : RefCtx) (tvs : List Nat) : List V → Except Exn (List J)
+def toSchemaL (pr : Printer) (ctx : RefCtx) (tvs nrs : List Nat) : List V → Except Exn (List J)
   | [] => .ok []
   | v :: vs => do
-    let s ← toSchema pr ctx tvs v
-    let ss ← toSchemaL pr ctx tvs vs
+    let s ← toSchema pr ctx tvs nrs v
+    let ss ← toSchemaL pr ctx tvs nrs vs
     .ok (s :: ss)
 termination_by structural vs => vs
 end
